@@ -22,6 +22,16 @@ func fnItems(kinds []string, keys ...string) []Item {
 var plans = map[string]*Plan{}
 
 func init() {
+	plans["C05"] = &Plan{
+		Items: []Item{{Plugin: "privileges"}, {Func: "hotline.(*ClientConn).Authorize"}, {Func: "hotline.(*AccessBitmap).IsSet"}},
+		Decided: []string{
+			"no effect without privilege: at every effect site of every registered handler the path condition implies the governing privilege (by target kind)",
+			"every effect site is classified (governed or explicitly ungoverned) in spec/privileges.spec",
+			"no spurious denial; clean denial (nothing changed or sent, the denial is what is returned); no success reply while an always-required privilege is missing",
+			"Authorize(i) == bit i of the account's access bitmap (counted from the most significant bit of byte 0), false without account",
+		},
+		Undecided: []string{"target kinds other than regular file / directory (FIFOs, devices)", "per-recipient ReadChat filter and the AnyName rule are decided under C12 / C13"},
+	}
 	plans["C01"] = &Plan{
 		Items: fnItems(nil,
 			"hotline.(*Field).Read", "hotline.NewField", "hotline.(*Field).Write", "hotline.FieldScanner",
